@@ -270,13 +270,16 @@ func c06(args []string) int {
 					continue
 				}
 				if f.Tier == "quick" {
-					// quick: one scenario per foreign kind, rotating with the history and the block
-					if seenKind[fm.kind] || (fi+si+bi)%3 != 0 {
+					// quick: one scenario per foreign kind, a fifth of the kinds per (history, block), rotating
+					if seenKind[fm.kind] || (fi+si+bi)%5 != 0 {
 						continue
 					}
 					seenKind[fm.kind] = true
 				}
 				for at := 0; at <= n; at++ {
+					if f.Tier == "quick" && at != 0 && at != n {
+						continue // quick: first and last position of the block; thorough: every position
+					}
 					jobList = append(jobList, c06Job{Scn: sc.ID(), Block: bi, At: at, Src: fm.scn, Tx: fm.tx, Mode: "foreign"})
 				}
 			}
